@@ -41,15 +41,14 @@ func (v *Vue) evaluate(ctx VueContext, nodes []*html.Node, depth int) ([]*html.N
 
 			// Check for v-once early - skip if already rendered
 			// (An element that also carries v-for is tested per iteration, on the
-			// clones evalFor makes of it: marking the id here would skip them all.)
-			if helpers.HasAttr(node, "v-once") && !helpers.HasAttr(node, "v-for") {
-				vSeenID := helpers.GetAttr(node, "v-once-id")
-				if ctx.seen[vSeenID] {
+			// clones evalFor makes of it: marking the id here would skip them all.
+			// A member of a v-if chain is tested when the chain has chosen it, see
+			// evaluateNodeAsElement.)
+			if helpers.HasAttr(node, "v-once") && !helpers.HasAttr(node, "v-for") && !isChainMember(node) {
+				if v.onceSeen(ctx, node) {
 					// This v-once element has already been rendered, skip it
 					continue
 				}
-				// Mark this v-once element as rendered
-				ctx.seen[vSeenID] = true
 			}
 
 			// Check for v-pre early - prevents all interpolation and directive processing
